@@ -120,6 +120,34 @@ CHECKS = {
              'detection at quiescence and a deterministic livelock guard (PEP 669 jump counter).',
         note='Sizes are None/-1/>=0; a history ends at the first DelimiterError; nested readers follow the protocol the '
              'code base itself uses; eof-false-at-end is flagged only once an operation had to look past the end.'),
+    'C01': dict(
+        level='exploration', ref='DESIGN.md section 4 (C01)',
+        technique=TECH + 'seeded histories of accepted and rejected add_route calls (every rejection site and depth, '
+                  'compile flag) interleaved with lookups; differential oracle against a fresh router fed only the accepted '
+                  'prefix, plus an independent depth-first reference walker',
+        text='Narrowed claim (see DESIGN 4/C01): the history part of the statement - a rejected template leaves later '
+             'lookups unchanged, the lazily swapped finder stays consistent with its side tables across add_route/find '
+             'sequences, lookups never raise - is explored by seeded histories of <=10 operations; rejection is treated as '
+             'the injected fault (10 rejection sites x first/middle/last segment x fresh/existing prefix). After every '
+             'operation the router under test is compared with a fresh router built from the accepted templates only, and '
+             'with a reference tree walker written from the statement. The for-all-route-sets x all-paths part appears only '
+             'as sampled workload.',
+        note='Where the statement is silent (order among multi-field siblings, ambiguous splits, field vs empty string) '
+             'the walker returns the set of allowed answers and any member is accepted.'),
+    'C16': dict(
+        level='exploration', ref='DESIGN.md section 4 (C16)',
+        technique=TECH + 'real directory tree observed by a process-wide open() audit hook, io/os fault proxies (open/fstat/'
+                  'seek/read errors, short reads), consuming-server read schedule and send failures swept per request; '
+                  'containment, slice and status oracles',
+        text='Seeded exploration with a fault sweep: add_static_route on real WSGI and ASGI apps over an immutable real tree '
+             '(sizes 0..12, sub-directories, an outside directory with secrets, a sibling whose name extends the served '
+             'directory); request paths from a traversal grammar (raw and percent-encoded), Range and If-Modified-Since '
+             'grammars; disk faults and read/send schedules injected at every opportunity. Every audited open must resolve '
+             'inside the directory (or be the fallback file), bodies/206 slices/Content-Range/416/304 must match the file, '
+             'injected open errors never yield a 5xx.',
+        note='Containment is decided mostly by the workload grammar (input generation); simulation adds the audited real file '
+             'system, the error paths and the read-schedule dimension. Weak reading of "names a regular file inside the '
+             'directory" by default (VERIF_C16_STRICT=1 selects the strict one).'),
 }
 
 NOT_YET = {p: 'claimed in DESIGN.md; check under construction in this round (not yet registered)' for p in
